@@ -48,6 +48,8 @@ enum Ev {
     /// a poll whose period cannot be added to the clock (Duration::MAX): never due by itself,
     /// it runs only when demanded
     AddPollNever(usize),
+    /// the oldest poll of association a that still exists is removed through its handle
+    RemovePoll(usize),
 }
 
 #[derive(Clone, Debug, PartialEq)]
@@ -62,6 +64,8 @@ struct PollM {
     period: u64,
     due: u64,
     handle_idx: usize,
+    /// removed polls keep their place (a poll is recognised on the wire by the group it reads)
+    removed: bool,
 }
 
 #[derive(Clone, Debug, Default)]
@@ -86,8 +90,8 @@ pub struct C19 {
     alphabet: Vec<Ev>,
 }
 
-fn poll_groups() -> [u8; 2] {
-    [30, 1]
+fn poll_groups() -> [u8; 4] {
+    [30, 1, 20, 10]
 }
 
 fn build_alphabet(n: usize, keep_alive: bool) -> Vec<Ev> {
@@ -138,7 +142,7 @@ impl C19 {
 
 impl Scenario for C19 {
     fn name(&self) -> String {
-        format!("assoc{}-keepalive{:?}-d{}{}", self.n, self.keep_alive, self.depth, if self.alphabet.len() == 4 { "-readd" } else { "" })
+        format!("assoc{}-keepalive{:?}-d{}{}", self.n, self.keep_alive, self.depth, if self.alphabet.contains(&Ev::RemovePoll(0)) { "-polls" } else if self.alphabet.len() == 4 { "-readd" } else { "" })
     }
     fn alphabet(&self) -> Vec<String> {
         self.alphabet.iter().map(|e| format!("{e:?}")).collect()
@@ -206,16 +210,21 @@ impl Scenario for C19 {
                     sim.call("user", async move { h.operate(CommandMode::DirectOperate, CommandBuilder::single_header_u8(cmd, 1)).await });
                 }
                 Ev::AddPoll(a, k) => {
-                    if m[*a].polls.len() < 2 {
+                    if m[*a].polls.iter().filter(|p| !p.removed).count() < 2 && m[*a].polls.len() < poll_groups().len() {
                         let g = poll_groups()[m[*a].polls.len()];
-                        let var = if g == 30 { Variation::Group30Var0 } else { Variation::Group1Var0 };
+                        let var = match g {
+                            30 => Variation::Group30Var0,
+                            1 => Variation::Group1Var0,
+                            20 => Variation::Group20Var0,
+                            _ => Variation::Group10Var0,
+                        };
                         let period = k * T;
                         let mut h = handles[*a].clone();
                         let r = sim.call_now("add_poll", async move { h.add_poll(ReadRequest::all_objects(var), Duration::from_millis(period)).await });
                         if let Some(Ok(ph)) = r {
                             poll_handles[*a].push(ph);
                             let idx = m[*a].polls.len();
-                            m[*a].polls.push(PollM { period, due: t_before + period, handle_idx: idx });
+                            m[*a].polls.push(PollM { period, due: t_before + period, handle_idx: idx, removed: false });
                         }
                     }
                 }
@@ -225,15 +234,24 @@ impl Scenario for C19 {
                         let r = sim.call_now("add_poll", async move { h.add_poll(ReadRequest::all_objects(Variation::Group30Var0), Duration::MAX).await });
                         if let Some(Ok(ph)) = r {
                             poll_handles[*a].push(ph);
-                            m[*a].polls.push(PollM { period: u64::MAX, due: u64::MAX, handle_idx: 0 });
+                            m[*a].polls.push(PollM { period: u64::MAX, due: u64::MAX, handle_idx: 0, removed: false });
                         }
                     }
                 }
                 Ev::Demand(a) => {
-                    if let Some(ph) = poll_handles[*a].first() {
-                        let mut ph = ph.clone();
+                    if let Some(i) = m[*a].polls.iter().position(|p| !p.removed) {
+                        let mut ph = poll_handles[*a][i].clone();
                         sim.call_now("demand", async move { ph.demand().await });
-                        m[*a].polls[0].due = t_before;
+                        m[*a].polls[i].due = t_before;
+                    }
+                }
+                Ev::RemovePoll(a) => {
+                    if let Some(i) = m[*a].polls.iter().position(|p| !p.removed) {
+                        let ph = poll_handles[*a][i].clone();
+                        sim.call_now("remove_poll", async move { ph.remove().await });
+                        m[*a].polls[i].removed = true;
+                        m[*a].polls[i].due = u64::MAX;
+                        m[*a].polls[i].period = u64::MAX;
                     }
                 }
                 Ev::Respond | Ev::RespondLate => {
@@ -255,7 +273,9 @@ impl Scenario for C19 {
                             w => {
                                 if let Work::Poll(p) = w {
                                     let per = m[o.a].polls[*p].period;
-                                    m[o.a].polls[*p].due = now.saturating_add(per);
+                                    if !m[o.a].polls[*p].removed {
+                                        m[o.a].polls[*p].due = now.saturating_add(per);
+                                    }
                                 }
                                 let r = ideal_reply(&o.raw, 0);
                                 sim.respond_from(addr(o.a), &r);
@@ -271,7 +291,9 @@ impl Scenario for C19 {
                         }
                         if let Work::Poll(p) = &o.work {
                             let per = m[o.a].polls[*p].period;
-                            m[o.a].polls[*p].due = deadline.saturating_add(per);
+                            if !m[o.a].polls[*p].removed {
+                                m[o.a].polls[*p].due = deadline.saturating_add(per);
+                            }
                         }
                     }
                 }
@@ -437,6 +459,10 @@ impl Scenario for C19 {
                             v = Some(Violation::new("C19.S3", "unknown-poll", format!("{work:?}")));
                             break;
                         };
+                        if pm.removed {
+                            v = Some(Violation::new("C19.S3", "removed-poll-still-runs", format!("association {a} poll {p} written at t={tw}")));
+                            break;
+                        }
                         if tw < pm.due {
                             v = Some(Violation::new(
                                 "C19.S3",
@@ -530,10 +556,12 @@ fn scenarios(tier: &str) -> Vec<C19> {
     let mk = |n: usize, keep_alive: Option<u64>, depth: usize| C19 { n, keep_alive, depth, alphabet: build_alphabet(n, keep_alive.is_some()) };
     // run-time reconfiguration and turn-taking: a small alphabet, deep enough for several rounds
     let readd = |depth: usize| C19 { n: 2, keep_alive: None, depth, alphabet: vec![Ev::ReAdd(0), Ev::Submit(0), Ev::Submit(1), Ev::Respond] };
+    // polls added and removed at run time: every poll that exists keeps its period, a removed one never runs
+    let polls = |depth: usize| C19 { n: 1, keep_alive: None, depth, alphabet: vec![Ev::AddPoll(0, 1), Ev::AddPoll(0, 2), Ev::RemovePoll(0), Ev::AdvTo, Ev::Respond] };
     if tier == "quick" {
-        vec![mk(1, None, 5), mk(2, None, 5), mk(2, Some(4 * T), 5), mk(3, None, 4), readd(9)]
+        vec![mk(1, None, 5), mk(2, None, 5), mk(2, Some(4 * T), 5), mk(3, None, 4), readd(9), polls(7)]
     } else {
-        vec![mk(1, None, 7), mk(1, Some(4 * T), 7), mk(2, None, 6), mk(2, Some(4 * T), 6), mk(3, None, 6), mk(3, Some(4 * T), 5), readd(11)]
+        vec![mk(1, None, 7), mk(1, Some(4 * T), 7), mk(2, None, 6), mk(2, Some(4 * T), 6), mk(3, None, 6), mk(3, Some(4 * T), 5), readd(11), polls(9)]
     }
 }
 
@@ -554,7 +582,7 @@ pub fn check(tier: &str) -> i32 {
     }
     c.finish(
         "model_checking",
-        "1..3 associations on one channel, keep-alive off / 4T, every history up to depth 4-5 (5-7 thorough) over 9-13 events (submit a user READ or command on association a, add a poll with period kT, demand a poll, prompt reply, reply 1 ms before the response timeout, no reply, advance to 1 ms before / exactly the earliest deadline the monitor predicts, an unsolicited fragment received half a keep-alive period into the silence, an association removed and added again with the same address) on the real MasterTask with a virtual clock; the monitor checks every request written: at most one outstanding per channel, user requests in submission order and ahead of the polls of every association on the channel, polls never before completion + period and written as soon as they are due on an idle channel, associations with waiting user requests take turns, link status requests only after the keep-alive silence, the master future is not polled while the clock advances to 1 ms before the earliest deadline and at most 200 times per event; non-trivial = at least two requests were written; distinct = distinct observation trace",
+        "1..3 associations on one channel, keep-alive off / 4T, every history up to depth 4-5 (5-7 thorough) over 9-13 events (submit a user READ or command on association a, add a poll with period kT, demand a poll, prompt reply, reply 1 ms before the response timeout, no reply, advance to 1 ms before / exactly the earliest deadline the monitor predicts, an unsolicited fragment received half a keep-alive period into the silence, an association removed and added again with the same address, polls removed through their handles and others added afterwards) on the real MasterTask with a virtual clock; the monitor checks every request written: at most one outstanding per channel, user requests in submission order and ahead of the polls of every association on the channel, polls never before completion + period and written as soon as they are due on an idle channel, associations with waiting user requests take turns, link status requests only after the keep-alive silence, the master future is not polled while the clock advances to 1 ms before the earliest deadline and at most 200 times per event; non-trivial = at least two requests were written; distinct = distinct observation trace",
         &["start-up tasks are off here (their ordering is C17's subject)", "T = 2 s, response timeout 1 s"],
         serde_json::json!({}),
     )
